@@ -330,6 +330,10 @@ fn top_identifiables(e: &autosar_data::Element, out: &mut Vec<String>) {
     }
 }
 
+pub fn container_children_collide_pub(w: &mut World, pid: usize, sid: usize) -> bool {
+    container_children_collide(w, pid, sid)
+}
+
 fn container_children_collide(w: &mut World, pid: usize, sid: usize) -> bool {
     let src = w.elems[sid].clone();
     if matches!(own_item_name(&src), Some(Some(_))) {
